@@ -314,6 +314,13 @@ func (p *Parser) parsePosting() *ast.Posting {
 	}
 
 	posting.Range.End = toASTPosition(p.current.Pos)
+
+	// anything left on the line was not understood: report it here instead of letting it start
+	// a new entry in the middle of the line (a date-like word would silently open a transaction)
+	if p.current.Type != TokenNewline && p.current.Type != TokenEOF {
+		p.error("unexpected token: %s", p.current.Type)
+		p.skipToNextLine()
+	}
 	return posting
 }
 
